@@ -166,6 +166,16 @@ def write_market(dirpath, market, rng=None, adj_factor=None):
                 fh.write("%s,%s,%s,%s,%s,%s,%d\n" % (date, f(o), f(99000), f(1000), f(c), f(c), 1000))
 
 
+def fx(v):
+    """float -> exact Fraction; NaN / inf stay recognisable (and compare equal to themselves)."""
+    v = float(v)
+    if v != v:
+        return "nan"
+    if v in (float("inf"), float("-inf")):
+        return "inf" if v > 0 else "-inf"
+    return Fraction(v)
+
+
 class Outcome(object):
     def __init__(self):
         self.failure = None      # (class name, event time in minutes) or None
@@ -274,10 +284,10 @@ def run_real(c, rng=None, signals_factory=None, alpha_factory=None, csv_dir=None
                 out.failure = (type(e).__name__, minutes(sess.broker.current_dt))
                 out.extra["message"] = str(e)[:300]
             _marks, fills = ob.take()
-        out.curve = [(minutes(t), Fraction(float(v))) for t, v in sess.equity_curve]
-        out.fills = [(minutes(f["t"]), f["asset"], int(f["qty"]), Fraction(float(f["px"])), Fraction(float(f["comm"]))) for f in fills]
+        out.curve = [(minutes(t), fx(v)) for t, v in sess.equity_curve]
+        out.fills = [(minutes(f["t"]), f["asset"], int(f["qty"]), fx(f["px"]), fx(f["comm"])) for f in fills]
         pf = sess.broker.portfolios[sess.portfolio_id]
-        out.cash = Fraction(float(pf.cash))
+        out.cash = fx(pf.cash)
         out.holdings = dict((a, int(v["quantity"])) for a, v in pf.portfolio_to_dict().items())
         out.extra["pnl"] = dict((a, (float(v["realised_pnl"]), float(v["unrealised_pnl"]), float(v["market_value"])))
                                 for a, v in pf.portfolio_to_dict().items())
